@@ -1,7 +1,7 @@
 (* Version/Entry.v — entry points used by the correspondence check: every
    function takes its arguments as a list of strings and returns one canonical
    string.  Separator conventions are mirrored in harness/check_C19.py. *)
-From MV Require Import Base.Strs Version.Model.
+From MV Require Import Base.Strs Version.Model Version.Feature Version.Search.
 Open Scope N_scope.
 
 Definition SEP1 : str := [1].   (* between fields *)
@@ -28,15 +28,100 @@ Fixpoint split_mark (l : list str) : list str * list str :=
               else let '(a, b) := split_mark r in (x :: a, b)
   end.
 
+Definition SEP4 : str := [4].   (* between sections of a "feat" answer *)
+
+(* split a string at every occurrence of the code point [sep] *)
+Fixpoint split_on (sep : char) (s : str) (cur : str) : list str :=
+  match s with
+  | [] => [rev cur]
+  | c :: r => if c =? sep then rev cur :: split_on sep r [] else split_on sep r (c :: cur)
+  end.
+Definition fields (s : str) : list str := match s with [] => [] | _ => split_on 2 s [] end.
+
+(* Version(s) raising ValueError (int() digit limit) in one of the strings *)
+Definition raises (l : list str) : bool :=
+  existsb (fun s => match version_init s with None => true | Some _ => false end) l.
+Definition EXC_ValueError : str := s2l "EXC:ValueError".
+
+(* class of one code point as the tokenizer and strip() see it: the decimal value
+   as an ASCII digit, 'a' for a letter, 's' for a blank, '-' otherwise *)
+Definition class_char (c : char) : char :=
+  match tokenize [49; c; 49] with
+  | [CNum n] => 48 + (n - 101) / 10
+  | [CNum 1; CAlpha _; CNum 1] => 97
+  | [CNum 1; CNum 1] => if is_space c then 115 else 45
+  | _ => 63
+  end.
+Fixpoint sweep (n : nat) (lo : N) : str :=
+  match n with O => [] | S n' => class_char lo :: sweep n' (lo + 1) end.
+
+Definition parse_kind (s : str) : fkind :=
+  if str_eqb s (s2l "new") then FNew else if str_eqb s (s2l "dep") then FDeprecated else FBroken.
+
+(* uses threaded through one registry: (warned flags, final registry) *)
+Fixpoint run_uses (k : fkind) (major : str) (tv : target) (reg : registry) (us : list str)
+  : str * registry :=
+  match us with
+  | [] => ([], reg)
+  | u :: r =>
+      match fields u with
+      | [name; ver; loc] =>
+          let '(reg', w) := use k major tv reg name ver loc in
+          let '(ws, regf) := run_uses k major tv reg' r in
+          (bool_str w ++ ws, regf)
+      | _ => (s2l "?", reg)
+      end
+  end.
+Definition use_flags (f : str -> str -> str -> str) (us : list str) : str :=
+  concat (map (fun u => match fields u with [name; ver; loc] => f name ver loc | _ => s2l "?" end) us).
+
+(* the always() answers met while entering the nested conditions *)
+Fixpoint nested_always (prev : range) (conds : list (list str)) : str :=
+  match conds with
+  | [] => []
+  | cs :: r => render_obool (conditional_always prev cs)
+               ++ nested_always (intersect prev (check_to_range cs range_any)) r
+  end.
+
 Definition run (fn : str) (args : list str) : str :=
   if str_eqb fn (s2l "tok") then
-    match args with [a] => render_ver (tokenize a) | _ => s2l "?" end
+    match args with [a] => if raises [a] then EXC_ValueError else render_ver (tokenize a) | _ => s2l "?" end
   else if str_eqb fn (s2l "cmp") then
     match args with
-    | [a; b] => concat (map (fun o => bool_str (vop o (tokenize a) (tokenize b))) all_ops)
+    | [a; b] => if raises [a; b] then EXC_ValueError else
+                concat (map (fun o => bool_str (vop o (tokenize a) (tokenize b))) all_ops)
     | _ => s2l "?" end
   else if str_eqb fn (s2l "vc") then
-    match args with [v; c] => bool_str (version_compare v c) | _ => s2l "?" end
+    match args with
+    | [v; c] => if raises [v; snd (extract_cmpop c)] then EXC_ValueError else bool_str (version_compare v c)
+    | _ => s2l "?" end
+  else if str_eqb fn (s2l "sweep") then
+    match args with
+    | [lo; n] => sweep (N.to_nat (digits_val n)) (digits_val lo)
+    | _ => s2l "?" end
+  else if str_eqb fn (s2l "search") then
+    match args with [t] => search_version t | _ => s2l "?" end
+  else if str_eqb fn (s2l "fnorm") then
+    match args with [v] => feature_norm v | _ => s2l "?" end
+  else if str_eqb fn (s2l "feat") then
+    (* args: kind, major, tvkind (N|V|R), pv, cond..., MARK, use...   (cond = constraints
+       joined by code point 2; use = name,version,location joined by code point 2) *)
+    match args with
+    | kind :: major :: tvk :: pv :: rest =>
+        let k := parse_kind kind in
+        let '(cs, us) := split_mark rest in
+        let conds := map fields cs in
+        let r := nested_range pv conds in
+        let tv := if str_eqb tvk (s2l "R") then TgRange r
+                  else if str_eqb tvk (s2l "V") then TgNoVersion else TgNone in
+        let '(ws, reg) := run_uses k major tv [] us in
+        join SEP4 [render_range r; nested_always (project_range pv) conds; ws;
+                   use_flags (fun n v l => bool_str (registered reg v n l)) us;
+                   use_flags (fun n v l => if registered reg v n l
+                                           then bool_str (report_notice k major tv v) else [45]) us;
+                   use_flags (fun n v l => if registered reg v n l
+                                           then bool_str (report_notice_asis k major tv v) else [45]) us]
+    | _ => s2l "?" end
   else if str_eqb fn (s2l "many") then
     match args with
     | v :: cs => let '(nf, f) := compare_many v cs in
